@@ -20,7 +20,7 @@ def needs(pid, tier):
         'C09': (['fixture-cg', 'ws-default'], [], False),
         'C10': (['fixture-cg', 'ws-default', 'logos-forbid'] + (['codegen-sm'] if t else []), gen, False),
         'C11': (['fixture-cg', 'ws-default'], gen, False),
-        'C12': (['fixture-cg', 'ws-default'], gen, False),
+        'C12': (['fixture-cg', 'ws-default', 'logos-forbid'], gen, False),
         'C13': (['fixture-rt', 'ws-default'] + (['logos-forbid'] if t else []), gen, False),
         'C14': (['fixture-rt', 'ws-default', 'logos-forbid'] + (['logos-release'] if t else []), [], True),
         'C15': (['fixture-rt', 'ws-default', 'logos-release'] + (['logos-forbid'] if t else []), [], t),
